@@ -89,6 +89,12 @@ BENIGN = [
     ('b23-affine3a-point-via-mul-add', 'src/f32/affine3a.rs', 'pub fn transform_point3a(&self, rhs: Vec3A) -> Vec3A {\n        self.matrix3 * rhs + self.translation', 'pub fn transform_point3a(&self, rhs: Vec3A) -> Vec3A {\n        self.matrix3.x_axis.mul_add(Vec3A::splat(rhs.x), self.matrix3.y_axis.mul_add(Vec3A::splat(rhs.y), self.matrix3.z_axis.mul_add(Vec3A::splat(rhs.z), self.translation)))', ['C07', 'C06', 'C11', 'C08'], 'transform_point3a through nested (always fused) mul_add'),
     ('b24-quat-shepperd-strict-guard', 'src/f32/sse2/quat.rs', 'if m22 <= 0.0 {', 'if m22 < 0.0 {', ['C05', 'C07'], 'Shepperd branch tie goes the other way'),
     ('b25-mat3-neg-via-scalar', 'src/f32/mat3.rs', 'Self::from_cols(self.x_axis.neg(), self.y_axis.neg(), self.z_axis.neg())', 'self.mul_scalar(-1.0)', ['C03', 'C07'], 'matrix negation as multiplication by -1.0'),
+    ('b26-dvec2-move-towards-max', 'src/f64/dvec2.rs', 'if len <= d || len <= 1e-4 {', 'if len <= d.max(1e-4) {', ['C12'], 'reach test written with max'),
+    ('b27-dvec3-rotate-towards-min-first', 'src/f64/dvec3.rs', '.max(angle_between - core::f64::consts::PI)\n            .min(angle_between);', '.min(angle_between)\n            .max(angle_between - core::f64::consts::PI);', ['C12', 'C18'], 'clamp of the rotation angle in the other order'),
+    ('b28-vec2-lerp-expanded', 'src/f32/vec2.rs', 'self * (1.0 - s) + rhs * s', 'self - self * s + rhs * s', ['C12', 'C02'], 'lerp written as self - self*s + rhs*s (exact at both ends)'),
+    ('b29-bvec3a-index-mod', 'src/bool/sse2/bvec3a.rs', '& 0x7', '% 8', ['C08', 'C15'], 'u32 % 8 for & 7'),
+    ('b30-affine2-scale-copysign', 'src/f32/affine2.rs', 'self.matrix2.x_axis.length() * math::signum(det),', 'math::copysign(self.matrix2.x_axis.length(), det),', ['C10', 'C07'], 'scale.x through copysign'),
+    ('b31-mat4-look-to-normalized-up', 'src/f32/sse2/mat4.rs', 'let s = f.cross(up).normalize();\n        let u = s.cross(f);\n\n        Self::from_cols(\n            Vec4::new(s.x, u.x, -f.x, 0.0),', 'let s = f.cross(up).normalize();\n        let u = s.cross(f).normalize();\n\n        Self::from_cols(\n            Vec4::new(s.x, u.x, -f.x, 0.0),', ['C11', 'C20'], 'look_to_rh re-normalises u (unit already under the documented precondition)'),
     ('b09-cross-operand-order', 'src/f32/vec3.rs', 'x: self.y * rhs.z - rhs.y * self.z,', 'x: self.y * rhs.z - self.z * rhs.y,', ['C02', 'C03', 'C07', 'C11'], 'commuted product inside cross'),
 ]
 
